@@ -203,6 +203,16 @@ CHECKS = {
             "git itself is the git oracle; the hg/docker references are a reading of their documentation for the "
             "generated pattern subset; one open known finding (libgit2 negation heuristic) is matched by signature.",
             "DESIGN.md 4 C20"),
+    "C11": ("exploration",
+            "property-based testing (Hypothesis) with a metamorphic oracle on the parsed query (dbg! output under "
+            "`debug = true`), rows and status; exhaustive one-at-a-time enumeration of the documented alias tables",
+            "Every rendering of a generated valid query - argument splits, letter case, aliases of operators / columns "
+            "/ functions / aggregates / root options / arithmetic words / formats, optional select / commas / asc / "
+            "() / bracket style / trailing FROM - must produce the identical parsed Query, rows and exit status as the "
+            "canonical one-argument rendering; every alias in the documentation's tables is substituted one at a time.",
+            "The parsed query is read from the debug output; one open known finding (a root word sharing its shell "
+            "word with following tokens) is excluded by construction, counted, and watched by its pinned case.",
+            "DESIGN.md 4 C11"),
 }
 
 PENDING = {}
